@@ -888,15 +888,36 @@ func c16NormalizeFresh(r *Run, fn *ssa.Function, rule string) {
 			continue
 		}
 		n++
-		base := ret.Results[0]
-		for depth := 0; depth < 6; depth++ {
-			if sl, ok := base.(*ssa.Slice); ok {
-				base = sl.X
-				continue
+		// the storage the result lives in: through re-slicing, appends that stay within a made slice's capacity are not
+		// distinguished here (an append either stays in that storage or allocates anew — fresh either way), and merges
+		var freshBase func(v ssa.Value, seen map[ssa.Value]bool, d int) bool
+		freshBase = func(v ssa.Value, seen map[ssa.Value]bool, d int) bool {
+			if d > 12 || seen[v] {
+				return d <= 12 // a loop-carried value already being examined
 			}
-			break
+			seen[v] = true
+			switch x := v.(type) {
+			case *ssa.MakeSlice:
+				return true
+			case *ssa.Slice:
+				return freshBase(x.X, seen, d+1)
+			case *ssa.Phi:
+				for _, e := range x.Edges {
+					if !freshBase(e, seen, d+1) {
+						return false
+					}
+				}
+				return true
+			case *ssa.Call:
+				if b, ok := x.Call.Value.(*ssa.Builtin); ok && b.Name() == "append" {
+					return freshBase(x.Call.Args[0], seen, d+1)
+				}
+			case *ssa.Const:
+				return x.Value == nil
+			}
+			return false
 		}
-		_, fresh := base.(*ssa.MakeSlice)
+		fresh := freshBase(ret.Results[0], map[ssa.Value]bool{}, 0)
 		r.Check(fresh, rule, "NormalizePath: the result is built in storage made by this call", ret.Pos(),
 			"the normalised list is a view of the caller's argument: normalising rewrites the caller's name list (a second walk with the same list sends different names)")
 	}
